@@ -227,6 +227,63 @@ def r8a_diagnostic_codes(ctx):
                           "publish_diagnostics at %s is reachable without evaluating the gate(s) of %s" % (crate.span_str(c["span"]), missing))
             else:
                 r.ok(sample={"publish_at": crate.span_str(c["span"]), "gates_dominating": sorted(gates)})
+    # the publisher always publishes (an empty list is what clears the diagnostics the client still shows), publishes what the
+    # collectors produced -- the vector handed to the client is only ever pushed to / extended -- and turns every collected
+    # finding into a diagnostic (the construction lies on every way round the loop over a collector's result)
+    pdom = f.postdominators()
+    pubs = [bb for bb, c in f.calls() if (c.get("res") or "").endswith("::publish_diagnostics")]
+    if pubs and not any(pb in pdom.get(0, set()) for pb in pubs):
+        r.violate("R8a|publish-skipped", "the diagnostics publisher can return without publishing: diagnostics the client holds for "
+                                         "the document are not cleared when nothing is left to report")
+    elif pubs:
+        r.ok(sample={"publish": "on every path through the publisher"})
+    from .r7 import _root_local
+    dvecs = set()
+    for pb in pubs:
+        c = f.blocks[pb]["t"][1]
+        for a in c["args"]:
+            l = op_local(a)
+            if l is not None and "Diagnostic>" in f.local_ty(l) and "Vec<" in f.local_ty(l):
+                dvecs.add(_root_local(f, a))
+    for bb, c in f.calls():
+        res = c.get("res") or ""
+        if not c["args"] or not re.search(r"vec::Vec::<T, A>::(\w+)$", res) or _root_local(f, c["args"][0]) not in dvecs:
+            continue
+        meth = res.rsplit("::", 1)[1]
+        if meth in ("push", "extend", "extend_from_slice", "append", "len", "is_empty", "reserve", "with_capacity", "new", "iter", "as_slice",
+                    "sort", "sort_by", "sort_by_key", "sort_unstable_by", "sort_unstable_by_key", "capacity", "shrink_to_fit"):
+            r.ok()
+        else:
+            r.violate("R8a|diagnostics-vector|%s" % meth, "the vector handed to the client is modified with `%s` at %s: findings the "
+                                                          "collectors produced are dropped before publishing" % (meth, crate.span_str(c["span"])))
+    from .r1e import natural_loops, NEXT_LIKE
+    coll_dests = {}
+    for bb, c in f.calls():
+        if c.get("res_local") and "FixtureDatabase" in (c.get("res") or "") and not c["span"][4]:
+            coll_dests[place_local(c["dest"])] = (c["res"] or "").split("::")[-1]
+    from .r7 import _iter_sources
+    diag_blocks = {rb for bbs in codes.values() for rb in bbs if rb is not None}
+    for hdr, latches, body in natural_loops(f):
+        nxt = [b for b in body if f.blocks[b]["t"][0] == "call" and NEXT_LIKE.search(f.blocks[b]["t"][1].get("fn") or "")
+               and f.blocks[b]["t"][1]["span"][4].startswith("desugar:ForLoop")]
+        if not nxt:
+            continue
+        srcs = _iter_sources(f, f.blocks[nxt[0]]["t"][1]["args"][0])
+        which = [coll_dests[x] for x in srcs if x in coll_dests]
+        if not which:
+            continue
+        built = [b for b in diag_blocks if b in body]
+        if not built:
+            continue
+        # no way round the loop avoids the construction
+        from .r1e import _avoiding_path
+        w = _avoiding_path(f, hdr, set(latches), body, set(built))
+        key = "R8a|finding-dropped|%s" % which[0]
+        if w is None:
+            r.ok(sample={"loop_over": which[0], "every_element_becomes_a_diagnostic": True})
+        else:
+            r.violate(key, "the loop over the result of %s can go round without constructing a Diagnostic: some findings are "
+                           "not published" % which[0])
     # quick-fix handler literal
     for g in crate.real_fns():
         if "handle_code_action" in g.id:
@@ -268,6 +325,14 @@ def r11a_analyze_then_publish(ctx):
         if not ana:
             r.violate(key + "|no-analysis", "%s does not analyse the document" % h.id)
             continue
+        # the handler may give up before analysing only because something is missing (the None / Err outcome of a lookup: no
+        # path for the uri, no content change in the notification); a return decided by a bool -- "the text equals what is
+        # cached" -- skips an analysis whose outcome also depends on other files and on what the scan wrote meanwhile
+        bad_skip = _skips_analysis_on_bool(h, set(ana))
+        if bad_skip is not None:
+            r.violate(key + "|analysis-skipped", "%s can return without analysing the notified content on a branch that is not "
+                                                 "the None / Err outcome of a lookup (decided at %s)" % (h.id, crate.span_str(bad_skip)))
+            continue
         pdom = h.postdominators()
         dom = h.dominators()
         # no publishing without analysing first: every path to a publisher passes an analysis call (a handler that skips
@@ -296,6 +361,54 @@ def r11a_analyze_then_publish(ctx):
             r.violate(key + "|not-followed", "%s: an analysis call is not followed on every path by publish_diagnostics_for_file" % h.id)
     r.floor("open/change handlers", n, 2)
     return r
+
+
+def _skips_analysis_on_bool(h, ana):
+    """span of a switch on a non-Option/Result value that decides between reaching an analysis call and returning without one"""
+    def reach(a, stop):
+        seen, st = {a}, [a]
+        while st:
+            x = st.pop()
+            if x in stop:
+                continue
+            for s2 in h.succs(x):
+                if s2 not in seen:
+                    seen.add(s2)
+                    st.append(s2)
+        return seen
+    before = reach(0, ana)
+    rets = {b for b in before if h.blocks[b]["t"][0] == "ret" and b not in ana}
+    if not rets:
+        return None
+    for b in sorted(before - ana):
+        t = h.blocks[b]["t"]
+        if t[0] != "switch":
+            continue
+        succ = h.succs(b)
+        to_ana = [bool(reach(s2, set()) & ana) for s2 in succ]
+        to_ret_wo = [bool(reach(s2, ana) & rets) for s2 in succ]
+        # a successor that can only return without analysing, next to one that still reaches the analysis
+        if not (any(a and True for a in to_ana) and any(r_ and not a for a, r_ in zip(to_ana, to_ret_wo))):
+            continue
+        src_ty = None
+        for st_ in h.blocks[b]["s"]:
+            if st_[0] == "=" and st_[2][0] == "discr" and place_local(st_[1]) == op_local(t[1]):
+                src_ty = h.local_ty(place_local(st_[2][1]))
+        if src_ty is not None and re.search(r"option::Option<|result::Result<|ops::ControlFlow<|task::Poll<", src_ty):
+            continue
+        if h.local_ty(op_local(t[1])) not in ("bool",) and src_ty is None and op_local(t[1]) is not None \
+                and h.local_ty(op_local(t[1])) not in ("bool", "u8", "u32", "usize", "isize"):
+            continue
+        sp = None
+        for st_ in reversed(h.blocks[b]["s"]):
+            if st_[0] == "=":
+                sp = st_[3]
+                break
+        if sp is None:
+            pb = [p_ for p_ in h.preds().get(b, []) if h.blocks[p_]["t"][0] == "call"]
+            sp = h.blocks[pb[0]]["t"][1]["span"] if pb else [0, h.line, 0, h.line, ""]
+        return sp
+    return None
 
 
 def _root(f, op, depth=0):
